@@ -314,23 +314,23 @@ func (r *Report) Finish(findingsDir, verifDir string, seed int64) int {
 			"generated protobuf code marshals every field",
 		}, r.Assumptions...),
 		"coverage": map[string]interface{}{
-			"explanation":         expl,
-			"evaluations":         len(r.Obls),
-			"distinct_nontrivial": nontriv,
-			"rule":                "one obligation per rule instance found in the loaded program (function + resolved callee/field/prefix + ordinal); non-trivial = needed a dominance, path or value-origin argument rather than mere enumeration; distinct = distinct rule:construct key",
-			"obligations":         len(r.Obls),
-			"discharged":          disch + assumed,
-			"known":               known,
-			"violated":            viol,
-			"undecided":           undec,
-			"rules":               rules,
-			"samples":             samples,
-			"all_obligations":     r.Obls,
+			"explanation":          expl,
+			"evaluations":          len(r.Obls),
+			"distinct_nontrivial":  nontriv,
+			"rule":                 "one obligation per rule instance found in the loaded program (function + resolved callee/field/prefix + ordinal); non-trivial = needed a dominance, path or value-origin argument rather than mere enumeration; distinct = distinct rule:construct key",
+			"obligations":          len(r.Obls),
+			"discharged":           disch + assumed,
+			"known":                known,
+			"violated":             viol,
+			"undecided":            undec,
+			"rules":                rules,
+			"samples":              samples,
+			"all_obligations":      r.Obls,
 			"residual_assumptions": resid,
-			"undecided_clauses":   r.Undecided,
-			"analysed":            r.Analysed,
-			"exhaustive":          true,
-			"checker_cmd":         fmt.Sprintf("./check %s %s", r.Prop, r.Tier),
+			"undecided_clauses":    r.Undecided,
+			"analysed":             r.Analysed,
+			"exhaustive":           true,
+			"checker_cmd":          fmt.Sprintf("./check %s %s", r.Prop, r.Tier),
 		},
 	}
 	os.MkdirAll(filepath.Join(verifDir, "evidence"), 0o755)
